@@ -2,3 +2,655 @@
 From KV Require Export Bytes RustInt Http1Read.
 From Coq Require Import ZifyBool ZifyNat ZifyN.
 Open Scope N_scope.
+Local Open Scope nat_scope.
+
+Arguments N.add : simpl never.
+Arguments N.sub : simpl never.
+Arguments N.eqb : simpl never.
+Arguments N.ltb : simpl never.
+Arguments N.leb : simpl never.
+Arguments Nat.min : simpl never.
+Arguments Nat.max : simpl never.
+Arguments Nat.sub : simpl never.
+
+(** * Lists *)
+
+Lemma firstn_skipn_add {A} (l : list A) n m : firstn n l ++ firstn m (skipn n l) = firstn (n + m) l.
+Proof.
+  revert l; induction n as [|n IH]; intros l; [reflexivity|].
+  destruct l as [|x l]; cbn [firstn skipn app Nat.add].
+  - rewrite firstn_nil. reflexivity.
+  - f_equal. apply IH.
+Qed.
+
+Lemma skipn_skipn_add {A} (l : list A) n m : skipn m (skipn n l) = skipn (n + m) l.
+Proof.
+  revert l; induction n as [|n IH]; intros l; [reflexivity|].
+  destruct l as [|x l]; cbn [skipn Nat.add]; [apply skipn_nil|apply IH].
+Qed.
+
+Lemma firstn_le_split {A} (l : list A) n m : n <= m -> firstn m l = firstn n l ++ firstn (m - n) (skipn n l).
+Proof. intros H. rewrite firstn_skipn_add. f_equal. lia. Qed.
+
+Lemma null_length {A} (l : list A) : null l = true <-> length l = 0.
+Proof. destruct l; cbn; split; intros; (reflexivity || discriminate). Qed.
+
+Lemma null_false_length {A} (l : list A) : null l = false <-> 0 < length l.
+Proof. destruct l; cbn; split; intros; try reflexivity; try discriminate; lia. Qed.
+
+(** * The scripted connection *)
+
+Lemma rd_read_any mode r room :
+  match rd_read mode r room with
+  | RdOk got r' =>
+      exists n, got = firstn n (rd_data r) /\ length got = n /\ n <= length (rd_data r) /\ n <= room /\
+                n <= sum_sched (rd_sched r) /\ rd_data r' = skipn n (rd_data r) /\
+                sum_sched (rd_sched r') = sum_sched (rd_sched r) - n
+  | _ => True
+  end.
+Proof.
+  assert (Hz : exists n, @nil N = firstn n (rd_data r) /\ length (@nil N) = n /\ n <= length (rd_data r) /\ n <= room /\
+                         n <= sum_sched (rd_sched r) /\ rd_data r = skipn n (rd_data r) /\
+                         sum_sched (rd_sched r) = sum_sched (rd_sched r) - n).
+  { exists 0. cbn [firstn skipn length]. repeat split; lia. }
+  assert (He : match rd_end mode r with
+               | RdOk got r' => exists n, got = firstn n (rd_data r) /\ length got = n /\ n <= length (rd_data r) /\ n <= room /\
+                   n <= sum_sched (rd_sched r) /\ rd_data r' = skipn n (rd_data r) /\
+                   sum_sched (rd_sched r') = sum_sched (rd_sched r) - n
+               | _ => True end).
+  { unfold rd_end. destruct (N.eqb mode 0); [exact Hz|]. destruct (N.eqb mode 1); exact I. }
+  unfold rd_read. destruct (Nat.eqb room 0) eqn:Er; [exact Hz|].
+  destruct r as [d s]; cbn [rd_data rd_sched] in *.
+  destruct d as [|c d]; [exact He|]. destruct s as [|b s]; [exact He|].
+  set (n := Nat.min b (Nat.min room (length (c :: d)))).
+  exists n. cbn [rd_data rd_sched].
+  assert (Hn : n <= length (c :: d)) by (subst n; lia).
+  split; [reflexivity|]. split; [rewrite firstn_length; lia|].
+  split; [exact Hn|]. split; [subst n; lia|].
+  split; [subst n; cbn [sum_sched fold_right]; lia|]. split; [reflexivity|].
+  destruct (Nat.eqb n b) eqn:Eb; cbn [sum_sched fold_right]; fold (sum_sched s); subst n; lia.
+Qed.
+
+Lemma sum_sched_pos b s : sched_pos (b :: s) -> 0 < sum_sched (b :: s).
+Proof. intros H. inversion H; subst. cbn [sum_sched fold_right]. lia. Qed.
+
+Lemma rd_read_pos mode r room :
+  sched_pos (rd_sched r) -> 0 < room -> 0 < avail r ->
+  exists n r', rd_read mode r room = RdOk (firstn n (rd_data r)) r' /\ 0 < n /\ n <= room /\ n <= avail r /\
+               rd_data r' = skipn n (rd_data r) /\ sched_pos (rd_sched r') /\
+               sum_sched (rd_sched r') = sum_sched (rd_sched r) - n.
+Proof.
+  intros Hp Hr Ha. unfold rd_read, avail in *. destruct (Nat.eqb room 0) eqn:Er; [lia|].
+  destruct r as [d s]; cbn [rd_data rd_sched] in *.
+  destruct d as [|c d]; [cbn [length] in Ha; lia|].
+  destruct s as [|b s]; [cbn [sum_sched fold_right] in Ha; lia|].
+  set (n := Nat.min b (Nat.min room (length (c :: d)))).
+  inversion Hp as [|b' s' Hb Hs]; subst b' s'.
+  exists n. eexists. split; [reflexivity|]. cbn [rd_data rd_sched].
+  assert (Hl : 0 < length (c :: d)) by (cbn [length]; lia).
+  split; [subst n; lia|]. split; [subst n; lia|].
+  split; [subst n; cbn [sum_sched fold_right]; lia|]. split; [reflexivity|].
+  destruct (Nat.eqb n b) eqn:Eb.
+  - split; [exact Hs|]. cbn [sum_sched fold_right]. fold (sum_sched s). lia.
+  - split; [constructor; [subst n; lia|exact Hs]|]. cbn [sum_sched fold_right]. fold (sum_sched s). subst n. lia.
+Qed.
+
+Lemma rd_read_empty mode r room :
+  sched_pos (rd_sched r) -> 0 < room -> avail r = 0 -> rd_read mode r room = rd_end mode r.
+Proof.
+  intros Hp Hr Ha. unfold rd_read, avail in *. destruct (Nat.eqb room 0) eqn:Er; [lia|].
+  destruct r as [d s]; cbn [rd_data rd_sched] in *.
+  destruct d as [|c d]; [reflexivity|]. destruct s as [|b s]; [reflexivity|].
+  pose proof (sum_sched_pos _ _ Hp). cbn [length] in Ha. lia.
+Qed.
+
+(** * [contains_two_newlines] and the end of the head *)
+
+Lemma ctn_bl_end ir b : ctn ir b = match bl_end ir b with Some _ => true | None => false end.
+Proof.
+  revert ir; induction b as [|c b IH]; intros ir; cbn [ctn bl_end]; [reflexivity|].
+  destruct (N.eqb c LF).
+  - destruct ir; [reflexivity|]. rewrite IH. destruct (bl_end true b); reflexivity.
+  - destruct (N.eqb c CR); rewrite IH; destruct (bl_end _ b); reflexivity.
+Qed.
+
+Lemma ctn_firstn ir b n :
+  ctn ir (firstn n b) = match bl_end ir b with Some k => Nat.leb k n | None => false end.
+Proof.
+  revert ir n; induction b as [|c b IH]; intros ir n.
+  - rewrite firstn_nil. reflexivity.
+  - destruct n as [|n].
+    + cbn [firstn ctn bl_end].
+      destruct (N.eqb c LF); [destruct ir; [reflexivity|destruct (bl_end true b); reflexivity]|].
+      destruct (N.eqb c CR); destruct (bl_end _ b); reflexivity.
+    + cbn [firstn ctn bl_end]. destruct (N.eqb c LF).
+      * destruct ir; [reflexivity|]. rewrite IH. destruct (bl_end true b); reflexivity.
+      * destruct (N.eqb c CR); rewrite IH; destruct (bl_end _ b); reflexivity.
+Qed.
+
+Lemma bl_end_le ir b k : bl_end ir b = Some k -> 1 <= k <= length b.
+Proof.
+  revert ir k; induction b as [|c b IH]; intros ir k; cbn [bl_end length]; [discriminate|].
+  destruct (N.eqb c LF).
+  - destruct ir; [intros H; inversion H; lia|].
+    destruct (bl_end true b) eqn:E; cbn [option_map]; [|discriminate].
+    intros H; inversion H; subst. apply IH in E. lia.
+  - destruct (N.eqb c CR); destruct (bl_end _ b) eqn:E; cbn [option_map]; try discriminate;
+      intros H; inversion H; subst; apply IH in E; lia.
+Qed.
+
+(** the end of the head does not move when bytes are cut off or added behind it *)
+Lemma bl_end_firstn ir b k n : bl_end ir b = Some k -> k <= n -> bl_end ir (firstn n b) = Some k.
+Proof.
+  revert ir k n; induction b as [|c b IH]; intros ir k n H Hk; [discriminate|].
+  pose proof (bl_end_le _ _ _ H) as Hle.
+  destruct n as [|n]; [lia|].
+  cbn [bl_end firstn] in *. destruct (N.eqb c LF).
+  - destruct ir; [assumption|]. destruct (bl_end true b) eqn:E; cbn [option_map] in *; [|discriminate].
+    inversion H; subst. rewrite (IH true n0 n E) by lia. reflexivity.
+  - destruct (N.eqb c CR); destruct (bl_end _ b) eqn:E; cbn [option_map] in *; try discriminate;
+      inversion H; subst; rewrite (IH _ n0 n E) by lia; reflexivity.
+Qed.
+
+Lemma bl_end_app ir a b k : bl_end ir a = Some k -> bl_end ir (a ++ b) = Some k.
+Proof.
+  revert ir k; induction a as [|c a IH]; intros ir k; cbn [bl_end app]; [discriminate|].
+  destruct (N.eqb c LF).
+  - destruct ir; [auto|]. destruct (bl_end true a) eqn:E; cbn [option_map]; [|discriminate].
+    intros H; inversion H; subst. rewrite (IH true n E). reflexivity.
+  - destruct (N.eqb c CR); destruct (bl_end _ a) eqn:E; cbn [option_map]; try discriminate;
+      intros H; inversion H; subst; erewrite IH; try reflexivity; eassumption.
+Qed.
+
+Lemma bl_end_firstn_none ir b n : bl_end ir b = None -> bl_end ir (firstn n b) = None.
+Proof.
+  intros H. pose proof (ctn_firstn ir b n) as H1. rewrite H in H1.
+  rewrite ctn_bl_end in H1. destruct (bl_end ir (firstn n b)); [discriminate|reflexivity].
+Qed.
+
+Lemma ctn_prefix ir b n m : n <= m -> ctn ir (firstn n b) = true -> ctn ir (firstn m b) = true.
+Proof.
+  intros Hnm. rewrite !ctn_firstn. destruct (bl_end ir b); [|auto].
+  intros H. apply Nat.leb_le in H. apply Nat.leb_le. lia.
+Qed.
+
+(** * [valid_start] only looks at the first nine bytes, and never past a line feed *)
+
+Lemma starts_with_firstn t s n : length t <= n -> starts_with t (firstn n s) = starts_with t s.
+Proof.
+  revert s n; induction t as [|x t IH]; intros s n H; [reflexivity|].
+  cbn [length] in H. destruct n as [|n]; [lia|].
+  destruct s as [|y s]; cbn [firstn starts_with]; [reflexivity|].
+  rewrite IH by lia. reflexivity.
+Qed.
+
+Lemma starts_with_short t s : length s < length t -> starts_with t s = false.
+Proof.
+  revert s; induction t as [|x t IH]; intros s H; [cbn [length] in H; lia|].
+  destruct s as [|y s]; cbn [starts_with]; [reflexivity|].
+  cbn [length] in H. rewrite IH by lia. apply andb_false_r.
+Qed.
+
+Definition no_lf (s : bytes) : bool := forallb (fun c => negb (N.eqb c LF)) s.
+
+Lemma ctn_no_lf ir s : no_lf s = true -> ctn ir s = false.
+Proof.
+  revert ir; induction s as [|c s IH]; intros ir H; [reflexivity|].
+  cbn [no_lf forallb] in H. apply andb_true_iff in H as [H1 H2]. fold (no_lf s) in H2.
+  cbn [ctn]. destruct (N.eqb c LF); [discriminate|]. destruct (N.eqb c CR); apply IH; exact H2.
+Qed.
+
+Lemma no_lf_firstn s n : no_lf s = true -> no_lf (firstn n s) = true.
+Proof.
+  revert n; induction s as [|c s IH]; intros n H; [rewrite firstn_nil; reflexivity|].
+  destruct n as [|n]; [reflexivity|]. cbn [no_lf forallb firstn] in *.
+  apply andb_true_iff in H as [H1 H2]. rewrite H1. cbn. apply IH. exact H2.
+Qed.
+
+Lemma starts_with_firstn_eq t s : starts_with t s = true -> firstn (length t) s = t.
+Proof.
+  intros H. apply starts_with_app in H as [r ->]. rewrite firstn_app, Nat.sub_diag, firstn_all.
+  cbn [firstn]. apply app_nil_r.
+Qed.
+
+(** a token without line feed: judging a prefix that is complete or nine bytes long = judging the whole *)
+Lemma starts_with_prefix_stable t s n :
+  no_lf t = true -> length t <= 9 -> n <= length s ->
+  (9 <= n \/ ctn false (firstn n s) = true) ->
+  starts_with t (firstn n s) = starts_with t s.
+Proof.
+  intros Ht H9 Hn Hor.
+  destruct (Nat.le_gt_cases (length t) n) as [Hle|Hgt]; [apply starts_with_firstn; exact Hle|].
+  destruct Hor as [Hor|Hor]; [lia|].
+  rewrite starts_with_short by (rewrite firstn_length; lia).
+  destruct (starts_with t s) eqn:E; [|reflexivity]. exfalso.
+  apply starts_with_firstn_eq in E.
+  assert (Hp : firstn n s = firstn n t).
+  { rewrite <- E. rewrite firstn_firstn. f_equal. lia. }
+  rewrite Hp in Hor. rewrite ctn_no_lf in Hor; [discriminate|]. apply no_lf_firstn. exact Ht.
+Qed.
+
+Lemma start_tokens_shape : forallb (fun t => no_lf t && Nat.leb (length t) 9) start_tokens = true.
+Proof. vm_compute. reflexivity. Qed.
+
+Lemma valid_start_prefix_stable s n :
+  n <= length s -> (9 <= n \/ ctn false (firstn n s) = true) -> valid_start (firstn n s) = valid_start s.
+Proof.
+  intros Hn Hor. unfold valid_start. pose proof start_tokens_shape as Hs.
+  induction start_tokens as [|t l IH]; [reflexivity|].
+  cbn [forallb existsb] in *. apply andb_true_iff in Hs as [Ht Hl].
+  apply andb_true_iff in Ht as [Ht1 Ht2]. apply Nat.leb_le in Ht2.
+  rewrite starts_with_prefix_stable by assumption. rewrite IH by exact Hl. reflexivity.
+Qed.
+
+Lemma valid_start_app a b : valid_start a = true -> valid_start (a ++ b) = true.
+Proof.
+  unfold valid_start. intros H. apply existsb_exists in H as [t [Hin Ht]].
+  apply existsb_exists. exists t. split; [exact Hin|].
+  apply starts_with_app in Ht as [r ->]. apply starts_with_app. exists (r ++ b). rewrite app_assoc. reflexivity.
+Qed.
+
+(** * The head reader: what it can return at all (every growth function, every schedule) *)
+
+Lemma read_headers_sound grow : forall fuel mode max_len buf cap r,
+  length (rd_data r) < fuel ->
+  match read_headers grow fuel mode max_len buf cap r with
+  | Ok (b, r') =>
+      exists n, b = buf ++ firstn n (rd_data r) /\ n <= length (rd_data r) /\ n <= sum_sched (rd_sched r) /\
+                rd_data r' = skipn n (rd_data r) /\ sum_sched (rd_sched r') = sum_sched (rd_sched r) - n /\
+                length b <= max_len /\ contains_two_newlines b = true /\ valid_start b = true
+  | Err e => e = E_TOO_LONG \/ e = E_UNEXPECTED_END \/ e = E_SYNTAX
+  | Panic => False
+  end.
+Proof.
+  induction fuel as [|f IH]; intros mode max_len buf cap r Hf; [lia|].
+  cbn [read_headers]. destruct (Nat.leb max_len (length buf)) eqn:Eml; [left; reflexivity|].
+  apply Nat.leb_gt in Eml.
+  set (cap' := read_more_cap grow max_len (length buf) cap).
+  pose proof (rd_read_any mode r (Nat.min cap' max_len - length buf)) as Hrd.
+  destruct (rd_read mode r (Nat.min cap' max_len - length buf)) as [got r'| |];
+    [|right; left; reflexivity|right; left; reflexivity].
+  destruct Hrd as [n [Hgot [Hlen [Hn1 [Hn2 [Hn3 [Hd' Hs']]]]]]].
+  destruct (null got) eqn:Enull; [right; left; reflexivity|].
+  apply null_false_length in Enull.
+  destruct ((contains_two_newlines (buf ++ got) || Nat.leb 9 (length (buf ++ got))) && negb (valid_start (buf ++ got))) eqn:Esyn;
+    [right; right; reflexivity|].
+  destruct (contains_two_newlines (buf ++ got)) eqn:Ec.
+  - exists n. subst got. repeat split; try assumption.
+    + rewrite app_length. lia.
+    + cbn [orb andb] in Esyn. destruct (valid_start (buf ++ firstn n (rd_data r))); [reflexivity|discriminate].
+  - specialize (IH mode max_len (buf ++ got) cap' r').
+    assert (Hf' : length (rd_data r') < f). { rewrite Hd', skipn_length. lia. }
+    specialize (IH Hf').
+    destruct (read_headers grow f mode max_len (buf ++ got) cap' r') as [[b r'']|e|]; [|exact IH|exact IH].
+    destruct IH as [n' [Hb [Hn1' [Hn3' [Hd'' [Hs'' [Hl [Hc Hv]]]]]]]].
+    exists (n + n'). rewrite Hd' in *. rewrite skipn_length in Hn1'.
+    repeat split; try assumption; try lia.
+    + rewrite Hb, Hgot, <- app_assoc, firstn_skipn_add. reflexivity.
+    + rewrite Hd''. apply skipn_skipn_add.
+Qed.
+
+(** * The head reader, exactly: positive schedules and a growth function that keeps its promise *)
+
+(** [rd_at S d p r]: the connection carries the stream [S], has handed out its first [p] bytes
+    and will hand out [d] bytes in all. *)
+Definition rd_at (S : bytes) (d p : nat) (r : reader) : Prop :=
+  rd_data r = skipn p S /\ sched_pos (rd_sched r) /\ p <= d /\ d <= length S /\
+  Nat.min (p + sum_sched (rd_sched r)) (length S) = d.
+
+Lemma rd_at_avail S d p r : rd_at S d p r -> avail r = d - p.
+Proof. intros [H1 [H2 [H3 [H4 H5]]]]. unfold avail. rewrite H1, skipn_length. lia. Qed.
+
+Lemma rd_at_start stream sched :
+  sched_pos sched -> rd_at stream (Nat.min (sum_sched sched) (length stream)) 0 (mk_reader stream sched).
+Proof. intros H. unfold rd_at. cbn [rd_data rd_sched skipn]. repeat split; try assumption; lia. Qed.
+
+Lemma rd_at_step S d p r n r' :
+  rd_at S d p r -> n <= avail r -> rd_data r' = skipn n (rd_data r) -> sched_pos (rd_sched r') ->
+  sum_sched (rd_sched r') = sum_sched (rd_sched r) - n -> rd_at S d (p + n) r'.
+Proof.
+  intros Hat Hn Hd Hp Hs. pose proof (rd_at_avail _ _ _ _ Hat) as Ha.
+  destruct Hat as [H1 [H2 [H3 [H4 H5]]]]. unfold rd_at.
+  split; [rewrite Hd, H1; apply skipn_skipn_add|]. split; [exact Hp|].
+  unfold avail in *. rewrite H1, skipn_length in *. lia.
+Qed.
+
+Lemma read_more_cap_room grow max_len len cap :
+  grow_ok grow -> len <= cap -> len < max_len -> len < Nat.min (read_more_cap grow max_len len cap) max_len.
+Proof.
+  intros Hg Hc Hl. unfold read_more_cap, reserve.
+  pose proof (Hg cap len (len + 512 - max_len)). pose proof (Hg cap len 512).
+  destruct (Nat.ltb cap (len + 512)) eqn:E1; [|lia].
+  destruct (Nat.ltb max_len (len + 512)) eqn:E2.
+  - destruct (Nat.leb (len + 512 - max_len) (cap - len)) eqn:E3; lia.
+  - destruct (Nat.leb 512 (cap - len)) eqn:E3; lia.
+Qed.
+
+Lemma firstn_firstn_le {A} (l : list A) n m : n <= m -> firstn n (firstn m l) = firstn n l.
+Proof. intros H. rewrite firstn_firstn. f_equal. lia. Qed.
+
+Lemma vs_prefix S d c :
+  c <= d -> d <= length S -> (9 <= c \/ ctn false (firstn c S) = true) ->
+  valid_start (firstn c S) = valid_start (firstn d S).
+Proof.
+  intros Hc Hd Hor. rewrite <- (firstn_firstn_le S c d Hc).
+  apply valid_start_prefix_stable; [rewrite firstn_length; lia|].
+  rewrite firstn_firstn_le by exact Hc. exact Hor.
+Qed.
+
+Lemma bl_end_prefix_false S d p k :
+  p <= d -> ctn false (firstn p S) = false -> bl_end false (firstn d S) = Some k -> p < k.
+Proof.
+  intros Hp Hc Hk. pose proof (ctn_firstn false (firstn d S) p) as H.
+  rewrite firstn_firstn_le in H by exact Hp. rewrite Hc, Hk in H.
+  symmetry in H. apply Nat.leb_gt in H. exact H.
+Qed.
+
+Lemma head_spec_too_long max_len S d p :
+  ctn false (firstn p S) = false -> max_len <= p -> p <= d -> d <= length S ->
+  (9 <= p -> valid_start (firstn p S) = true) ->
+  head_spec max_len (firstn d S) = Err E_TOO_LONG.
+Proof.
+  intros Hc Hm Hp Hd Hv. unfold head_spec, blank_end.
+  assert (Hf : head_fail max_len (firstn d S) = Err E_TOO_LONG).
+  { unfold head_fail. rewrite firstn_length_le by exact Hd.
+    destruct (Nat.leb 9 (Nat.min d max_len)) eqn:E9.
+    - apply Nat.leb_le in E9. rewrite <- (vs_prefix S d p) by (try assumption; left; lia).
+      rewrite Hv by lia. cbn [negb andb]. destruct (Nat.leb max_len d) eqn:E; [reflexivity|]. apply Nat.leb_gt in E. lia.
+    - cbn [andb]. destruct (Nat.leb max_len d) eqn:E; [reflexivity|]. apply Nat.leb_gt in E. lia. }
+  destruct (bl_end false (firstn d S)) as [k|] eqn:Ek; [|exact Hf].
+  pose proof (bl_end_prefix_false S d p k Hp Hc Ek).
+  destruct (Nat.leb k max_len) eqn:E; [apply Nat.leb_le in E; lia|exact Hf].
+Qed.
+
+Lemma head_spec_eof max_len S p :
+  ctn false (firstn p S) = false -> p < max_len -> p <= length S ->
+  (9 <= p -> valid_start (firstn p S) = true) ->
+  head_spec max_len (firstn p S) = Err E_UNEXPECTED_END.
+Proof.
+  intros Hc Hm Hp Hv. unfold head_spec, blank_end.
+  rewrite ctn_bl_end in Hc. destruct (bl_end false (firstn p S)); [discriminate|].
+  unfold head_fail. rewrite firstn_length_le by exact Hp.
+  destruct (Nat.leb 9 (Nat.min p max_len)) eqn:E9.
+  - apply Nat.leb_le in E9. rewrite Hv by lia. cbn [negb andb].
+    destruct (Nat.leb max_len p) eqn:E; [apply Nat.leb_le in E; lia|reflexivity].
+  - cbn [andb]. destruct (Nat.leb max_len p) eqn:E; [apply Nat.leb_le in E; lia|reflexivity].
+Qed.
+
+Lemma head_spec_syntax max_len S d c :
+  c <= d -> d <= length S -> c <= max_len ->
+  (ctn false (firstn c S) = true \/ 9 <= c) -> valid_start (firstn c S) = false ->
+  head_spec max_len (firstn d S) = Err E_SYNTAX.
+Proof.
+  intros Hc Hd Hm Hor Hv. unfold head_spec, blank_end.
+  assert (Hvd : valid_start (firstn d S) = false).
+  { rewrite <- (vs_prefix S d c); [exact Hv|exact Hc|exact Hd|]. destruct Hor; [right|left]; assumption. }
+  assert (Hf : 9 <= c -> head_fail max_len (firstn d S) = Err E_SYNTAX).
+  { intros H9. unfold head_fail. rewrite firstn_length_le by exact Hd. rewrite Hvd.
+    destruct (Nat.leb 9 (Nat.min d max_len)) eqn:E; [reflexivity|]. apply Nat.leb_gt in E. lia. }
+  pose proof (ctn_firstn false (firstn d S) c) as Hcf. rewrite firstn_firstn_le in Hcf by exact Hc.
+  destruct (bl_end false (firstn d S)) as [k|] eqn:Ek.
+  - destruct (Nat.leb k max_len) eqn:E; [rewrite Hvd; reflexivity|].
+    apply Nat.leb_gt in E. destruct Hor as [Hor|Hor]; [|apply Hf; exact Hor].
+    rewrite Hor in Hcf. symmetry in Hcf. apply Nat.leb_le in Hcf. lia.
+  - destruct Hor as [Hor|Hor]; [rewrite Hor in Hcf; discriminate|apply Hf; exact Hor].
+Qed.
+
+Lemma head_spec_ok max_len S d c :
+  c <= d -> d <= length S -> c <= max_len ->
+  ctn false (firstn c S) = true -> valid_start (firstn c S) = true ->
+  exists k, head_spec max_len (firstn d S) = Ok k /\ k <= c.
+Proof.
+  intros Hc Hd Hm Hct Hv. unfold head_spec, blank_end.
+  pose proof (ctn_firstn false (firstn d S) c) as Hcf. rewrite firstn_firstn_le in Hcf by exact Hc.
+  rewrite Hct in Hcf. destruct (bl_end false (firstn d S)) as [k|] eqn:Ek; [|discriminate].
+  symmetry in Hcf. apply Nat.leb_le in Hcf. exists k.
+  destruct (Nat.leb k max_len) eqn:E; [|apply Nat.leb_gt in E; lia].
+  rewrite <- (vs_prefix S d c) by (try assumption; right; exact Hct). rewrite Hv. split; [reflexivity|exact Hcf].
+Qed.
+
+Lemma read_headers_exact grow : grow_ok grow -> forall fuel mode max_len S d p cap r,
+  rd_at S d p r -> d - p < fuel -> p <= cap ->
+  ctn false (firstn p S) = false -> (9 <= p -> valid_start (firstn p S) = true) ->
+  match head_spec max_len (firstn d S) with
+  | Ok k => exists c r', read_headers grow fuel mode max_len (firstn p S) cap r = Ok (firstn c S, r') /\
+                         k <= c /\ c <= max_len /\ rd_at S d c r'
+  | Err e => read_headers grow fuel mode max_len (firstn p S) cap r = Err e
+  | Panic => False
+  end.
+Proof.
+  intros Hg. induction fuel as [|f IH]; intros mode max_len S d p cap r Hat Hf Hcap Hct Hv; [lia|].
+  pose proof (rd_at_avail _ _ _ _ Hat) as Hav.
+  assert (HpS : p <= length S) by (destruct Hat as [_ [_ [? [? _]]]]; lia).
+  assert (Hpd : p <= d) by (destruct Hat as [_ [_ [? _]]]; assumption).
+  assert (HdS : d <= length S) by (destruct Hat as [_ [_ [_ [? _]]]]; assumption).
+  cbn [read_headers]. rewrite (firstn_length_le S HpS).
+  destruct (Nat.leb max_len p) eqn:Eml.
+  { apply Nat.leb_le in Eml. rewrite (head_spec_too_long max_len S d p) by assumption. reflexivity. }
+  apply Nat.leb_gt in Eml.
+  set (cap' := read_more_cap grow max_len p cap).
+  pose proof (read_more_cap_room grow max_len p cap Hg Hcap Eml) as Hroom. fold cap' in Hroom.
+  destruct (Nat.eq_dec d p) as [Hdp|Hdp].
+  - (* nothing more will arrive *)
+    subst d. rewrite rd_read_empty; [|destruct Hat as [_ [? _]]; assumption|lia|lia].
+    rewrite (head_spec_eof max_len S p) by assumption.
+    unfold rd_end. destruct (N.eqb mode 0); [reflexivity|]. destruct (N.eqb mode 1); reflexivity.
+  - destruct (rd_read_pos mode r (Nat.min cap' max_len - p)) as [n [r' [Hrd [Hn0 [Hn1 [Hn2 [Hd' [Hp' Hs']]]]]]]];
+      [destruct Hat as [_ [? _]]; assumption|lia|lia|].
+    rewrite Hrd. pose proof (rd_at_step _ _ _ _ n r' Hat Hn2 Hd' Hp' Hs') as Hat'.
+    destruct Hat as [Hdat _]. rewrite Hdat. rewrite firstn_skipn_add.
+    assert (Hnull : null (firstn n (skipn p S)) = false).
+    { apply null_false_length. rewrite firstn_length, skipn_length. lia. }
+    rewrite Hnull. set (c := p + n) in *.
+    assert (Hcd : c <= d) by lia. assert (Hcm : c <= max_len) by lia.
+    rewrite (firstn_length_le S) by lia.
+    unfold contains_two_newlines.
+    destruct ((ctn false (firstn c S) || Nat.leb 9 c) && negb (valid_start (firstn c S))) eqn:Esyn.
+    + apply andb_true_iff in Esyn as [E1 E2]. apply negb_true_iff in E2.
+      rewrite (head_spec_syntax max_len S d c); try assumption; [reflexivity|].
+      apply orb_true_iff in E1 as [E1|E1]; [left; exact E1|right; apply Nat.leb_le; exact E1].
+    + destruct (ctn false (firstn c S)) eqn:Ec.
+      * cbn [orb andb] in Esyn. apply negb_false_iff in Esyn.
+        destruct (head_spec_ok max_len S d c Hcd HdS Hcm Ec Esyn) as [k [Hk Hkc]]. rewrite Hk.
+        exists c, r'. split; [reflexivity|]. split; [exact Hkc|]. split; [exact Hcm|exact Hat'].
+      * cbn [orb] in Esyn.
+        specialize (IH mode max_len S d c cap' r' Hat').
+        assert (Hv' : 9 <= c -> valid_start (firstn c S) = true).
+        { intros H9. apply Nat.leb_le in H9. rewrite H9 in Esyn. cbn [andb] in Esyn. apply negb_false_iff in Esyn. exact Esyn. }
+        apply IH; [lia|lia|exact Ec|exact Hv'].
+Qed.
+
+(** * The body reader *)
+
+Lemma rtem_reserve_ge grow read cap : grow_ok grow -> cap <= rtem_reserve grow read cap.
+Proof.
+  intros Hg. unfold rtem_reserve. destruct (Nat.ltb (cap - read) 32); [|lia].
+  match goal with |- _ <= grow cap cap ?a => pose proof (Hg cap cap a) end. lia.
+Qed.
+
+Lemma rtem_loop_exact grow : grow_ok grow -> forall fuel mode max_len S d p buf cap tl r,
+  rd_at S d p r -> tl < fuel -> length buf + tl = max_len -> max_len <= cap ->
+  if Nat.leb tl (d - p) then
+    exists r', rtem_loop grow fuel mode max_len buf cap tl r = Ok (buf ++ firstn tl (skipn p S), r') /\ rd_at S d (p + tl) r'
+  else if N.eqb mode 0 then
+    exists r', rtem_loop grow fuel mode max_len buf cap tl r = Ok (buf ++ firstn (d - p) (skipn p S), r') /\ rd_at S d d r'
+  else if N.eqb mode 1 then rtem_loop grow fuel mode max_len buf cap tl r = Err E_TIMEDOUT
+  else rtem_loop grow fuel mode max_len buf cap tl r = Err E_IO.
+Proof.
+  intros Hg. induction fuel as [|f IH]; intros mode max_len S d p buf cap tl r Hat Hf Hlen Hcap; [lia|].
+  pose proof (rd_at_avail _ _ _ _ Hat) as Hav.
+  assert (Hpd : p <= d) by (destruct Hat as [_ [_ [? _]]]; assumption).
+  cbn [rtem_loop]. destruct (Nat.eqb tl 0) eqn:Etl.
+  { apply Nat.eqb_eq in Etl. subst tl. cbn [Nat.leb firstn]. exists r. rewrite app_nil_r, Nat.add_0_r. split; [reflexivity|exact Hat]. }
+  apply Nat.eqb_neq in Etl.
+  replace (Nat.min (cap - length buf) tl) with tl by lia.
+  destruct (Nat.eq_dec d p) as [Hdp|Hdp].
+  - subst d. rewrite rd_read_empty; [|destruct Hat as [_ [? _]]; assumption|lia|lia].
+    destruct (Nat.leb tl (p - p)) eqn:E; [apply Nat.leb_le in E; lia|].
+    unfold rd_end. rewrite Nat.sub_diag. cbn [firstn]. rewrite app_nil_r.
+    destruct (N.eqb mode 0); [exists r; split; [reflexivity|exact Hat]|].
+    destruct (N.eqb mode 1); reflexivity.
+  - destruct (rd_read_pos mode r tl) as [n [r' [Hrd [Hn0 [Hn1 [Hn2 [Hd' [Hp' Hs']]]]]]]];
+      [destruct Hat as [_ [? _]]; assumption|lia|lia|].
+    rewrite Hrd. pose proof (rd_at_step _ _ _ _ n r' Hat Hn2 Hd' Hp' Hs') as Hat'.
+    assert (Hdat : rd_data r = skipn p S) by (destruct Hat as [? _]; assumption).
+    assert (HdS : d <= length S) by (destruct Hat as [_ [_ [_ [? _]]]]; assumption).
+    rewrite Hdat.
+    assert (Hgl : length (firstn n (skipn p S)) = n) by (rewrite firstn_length, skipn_length; lia).
+    assert (Hnull : null (firstn n (skipn p S)) = false) by (apply null_false_length; lia).
+    rewrite Hnull, app_length, Hgl.
+    destruct (Nat.leb max_len (length buf + n)) eqn:Em.
+    + apply Nat.leb_le in Em. assert (n = tl) by lia. subst n.
+      destruct (Nat.leb tl (d - p)) eqn:E; [|apply Nat.leb_gt in E; lia].
+      exists r'. split; [reflexivity|exact Hat'].
+    + apply Nat.leb_gt in Em.
+      specialize (IH mode max_len S d (p + n) (buf ++ firstn n (skipn p S))
+                     (rtem_reserve grow (length buf + n) cap) (tl - n) r' Hat').
+      pose proof (rtem_reserve_ge grow (length buf + n) cap Hg).
+      rewrite app_length, Hgl in IH.
+      specialize (IH ltac:(lia) ltac:(lia) ltac:(lia)).
+      replace (d - (p + n)) with (d - p - n) in IH by lia.
+      destruct (Nat.leb tl (d - p)) eqn:E.
+      * apply Nat.leb_le in E. destruct (Nat.leb (tl - n) (d - p - n)) eqn:E'; [|apply Nat.leb_gt in E'; lia].
+        destruct IH as [r'' [H1 H2]]. exists r''. rewrite H1. split.
+        -- rewrite <- app_assoc, <- (skipn_skipn_add S p n), firstn_skipn_add.
+           replace (n + (tl - n)) with tl by lia. reflexivity.
+        -- replace (p + tl) with (p + n + (tl - n)) by lia. exact H2.
+      * apply Nat.leb_gt in E. destruct (Nat.leb (tl - n) (d - p - n)) eqn:E'; [apply Nat.leb_le in E'; lia|].
+        destruct (N.eqb mode 0); [|exact IH].
+        destruct IH as [r'' [H1 H2]]. exists r''. rewrite H1. split; [|exact H2].
+        rewrite <- app_assoc, <- (skipn_skipn_add S p n), firstn_skipn_add.
+        replace (n + (d - p - n)) with (d - p) by lia. reflexivity.
+Qed.
+
+Lemma read_to_bytes_exact grow : grow_ok grow -> forall mode early cl limit S d p r,
+  rd_at S d p r ->
+  match body_spec mode early cl limit (firstn (d - p) (skipn p S)) with
+  | Ok b => exists r', read_to_bytes grow mode early cl limit r = Ok (b, r') /\
+                       rd_at S d (p + Nat.min (N.to_nat (N.min cl limit) - length early) (d - p)) r'
+  | Err e => read_to_bytes grow mode early cl limit r = Err e
+  | Panic => False
+  end.
+Proof.
+  intros Hg mode early cl limit S d p r Hat. unfold body_spec, read_to_bytes.
+  set (need := N.to_nat (N.min cl limit)).
+  assert (HdS : d <= length S) by (destruct Hat as [_ [_ [_ [? _]]]]; assumption).
+  assert (Hpd : p <= d) by (destruct Hat as [_ [_ [? _]]]; assumption).
+  assert (Hl : length (firstn (d - p) (skipn p S)) = d - p) by (rewrite firstn_length, skipn_length; lia).
+  rewrite Hl.
+  destruct (Nat.eqb need 0) eqn:E0.
+  { apply Nat.eqb_eq in E0. rewrite E0. cbn [Nat.leb firstn]. exists r. split; [reflexivity|].
+    replace (p + Nat.min (0 - length early) (d - p)) with p by lia. exact Hat. }
+  apply Nat.eqb_neq in E0.
+  destruct (Nat.leb need (length (firstn need early))) eqn:E1.
+  { apply Nat.leb_le in E1. rewrite firstn_length in E1.
+    destruct (Nat.leb need (length early + (d - p))) eqn:E2; [|apply Nat.leb_gt in E2; lia].
+    exists r. split.
+    - rewrite firstn_app. replace (need - length early) with 0 by lia. cbn [firstn]. rewrite app_nil_r. reflexivity.
+    - replace (p + Nat.min (need - length early) (d - p)) with p by lia. exact Hat. }
+  apply Nat.leb_gt in E1. rewrite firstn_length in E1.
+  assert (Hea : firstn need early = early) by (apply firstn_all2; lia).
+  rewrite Hea.
+  pose proof (rtem_loop_exact grow Hg (Datatypes.S (need - length early)) mode need S d p early
+                (rtem_reserve grow (length early) need) (need - length early) r Hat) as H.
+  pose proof (rtem_reserve_ge grow (length early) need Hg).
+  specialize (H ltac:(lia) ltac:(lia) ltac:(lia)).
+  destruct (Nat.leb (need - length early) (d - p)) eqn:E3.
+  - apply Nat.leb_le in E3. destruct (Nat.leb need (length early + (d - p))) eqn:E2; [|apply Nat.leb_gt in E2; lia].
+    destruct H as [r' [H1 H2]]. exists r'. rewrite H1. split.
+    + rewrite firstn_app, Hea, firstn_firstn.
+      replace (Nat.min (need - length early) (d - p)) with (need - length early) by lia. reflexivity.
+    + replace (Nat.min (need - length early) (d - p)) with (need - length early) by lia. exact H2.
+  - apply Nat.leb_gt in E3. destruct (Nat.leb need (length early + (d - p))) eqn:E2; [apply Nat.leb_le in E2; lia|].
+    destruct (N.eqb mode 0).
+    + destruct H as [r' [H1 H2]]. exists r'. rewrite H1. split; [reflexivity|].
+      replace (p + Nat.min (need - length early) (d - p)) with d by lia. exact H2.
+    + destruct (N.eqb mode 1); exact H.
+Qed.
+
+(** * Head limit, stalled heads, exact bodies: the statements of Properties/C07.v *)
+
+Lemma firstn_min_length {A} (l : list A) n : firstn (Nat.min n (length l)) l = firstn n l.
+Proof.
+  destruct (Nat.le_gt_cases n (length l)) as [H|H].
+  - replace (Nat.min n (length l)) with n by lia. reflexivity.
+  - replace (Nat.min n (length l)) with (length l) by lia. rewrite firstn_all, firstn_all2 by lia. reflexivity.
+Qed.
+
+Lemma firstn_app_firstn {A} (a s : list A) n d : n <= length a + d -> firstn n (a ++ firstn d s) = firstn n (a ++ s).
+Proof. intros H. rewrite !firstn_app. f_equal. apply firstn_firstn_le. lia. Qed.
+
+Lemma no_head_no_request : forall grow mode https dh max_len limit stream sched,
+  contains_two_newlines (firstn (Nat.min max_len (sum_sched sched)) stream) = false ->
+  exists e, serve grow mode https dh max_len limit stream sched = Err e /\
+            (e = E_TOO_LONG \/ e = E_UNEXPECTED_END \/ e = E_SYNTAX).
+Proof.
+  intros grow mode https dh max_len limit stream sched Hno. unfold serve, read_request. cbn [rd_data].
+  pose proof (read_headers_sound grow (Datatypes.S (length stream)) mode max_len [] 512 (mk_reader stream sched)) as H.
+  cbn [rd_data rd_sched] in H. specialize (H ltac:(lia)).
+  destruct (read_headers grow (Datatypes.S (length stream)) mode max_len [] 512 (mk_reader stream sched)) as [[b r']|e|];
+    [|exists e; split; [reflexivity|exact H]|contradiction].
+  exfalso. destruct H as [n [Hb [Hn1 [Hn2 [_ [_ [Hl [Hc _]]]]]]]]. cbn [app] in Hb. subst b.
+  rewrite firstn_length_le in Hl by exact Hn1.
+  unfold contains_two_newlines in *.
+  rewrite (ctn_prefix false stream n (Nat.min max_len (sum_sched sched))) in Hno; [discriminate|lia|exact Hc].
+Qed.
+
+Lemma head_limit_lemma : forall grow mode https dh max_len limit stream sched,
+  contains_two_newlines (firstn max_len stream) = false ->
+  exists e, serve grow mode https dh max_len limit stream sched = Err e /\
+            (e = E_TOO_LONG \/ e = E_UNEXPECTED_END \/ e = E_SYNTAX).
+Proof.
+  intros grow mode https dh max_len limit stream sched Hno. apply no_head_no_request.
+  unfold contains_two_newlines in *.
+  destruct (ctn false (firstn (Nat.min max_len (sum_sched sched)) stream)) eqn:E; [|reflexivity].
+  rewrite (ctn_prefix false stream (Nat.min max_len (sum_sched sched)) max_len) in Hno; [discriminate|lia|exact E].
+Qed.
+
+Lemma stalled_lemma : forall grow mode https dh max_len limit stream sched,
+  contains_two_newlines (firstn (sum_sched sched) stream) = false ->
+  exists e, serve grow mode https dh max_len limit stream sched = Err e /\
+            (e = E_TOO_LONG \/ e = E_UNEXPECTED_END \/ e = E_SYNTAX).
+Proof.
+  intros grow mode https dh max_len limit stream sched Hno. apply no_head_no_request.
+  unfold contains_two_newlines in *.
+  destruct (ctn false (firstn (Nat.min max_len (sum_sched sched)) stream)) eqn:E; [|reflexivity].
+  rewrite (ctn_prefix false stream (Nat.min max_len (sum_sched sched)) (sum_sched sched)) in Hno; [discriminate|lia|exact E].
+Qed.
+
+(** the body reader = [body_spec] of what the connection delivers, for every schedule *)
+Lemma body_any_schedule : forall grow mode early cl limit stream sched,
+  grow_ok grow -> sched_pos sched ->
+  match body_spec mode early cl limit (firstn (sum_sched sched) stream) with
+  | Ok b => exists r', read_to_bytes grow mode early cl limit (mk_reader stream sched) = Ok (b, r')
+  | Err e => read_to_bytes grow mode early cl limit (mk_reader stream sched) = Err e
+  | Panic => False
+  end.
+Proof.
+  intros grow mode early cl limit stream sched Hg Hp.
+  pose proof (read_to_bytes_exact grow Hg mode early cl limit stream _ 0 _ (rd_at_start stream sched Hp)) as H.
+  cbn [skipn] in H. rewrite Nat.sub_0_r, firstn_min_length in H.
+  destruct (body_spec mode early cl limit (firstn (sum_sched sched) stream)); [|exact H|exact H].
+  destruct H as [r' [H _]]. exists r'. exact H.
+Qed.
+
+Lemma body_exact_lemma : forall grow mode early cl limit stream sched,
+  grow_ok grow -> sched_pos sched ->
+  N.to_nat (N.min cl limit) <= length early + Nat.min (sum_sched sched) (length stream) ->
+  exists r', read_to_bytes grow mode early cl limit (mk_reader stream sched) =
+               Ok (firstn (N.to_nat (N.min cl limit)) (early ++ stream), r') /\
+             rd_data r' = skipn (N.to_nat (N.min cl limit) - length early) stream.
+Proof.
+  intros grow mode early cl limit stream sched Hg Hp Hneed.
+  pose proof (read_to_bytes_exact grow Hg mode early cl limit stream _ 0 _ (rd_at_start stream sched Hp)) as H.
+  cbn [skipn] in H. rewrite Nat.sub_0_r in H. unfold body_spec in H.
+  rewrite firstn_length_le in H by lia.
+  destruct (Nat.leb (N.to_nat (N.min cl limit)) (length early + Nat.min (sum_sched sched) (length stream))) eqn:E;
+    [|apply Nat.leb_gt in E; lia].
+  destruct H as [r' [H1 H2]]. exists r'. rewrite H1. split.
+  - rewrite firstn_app_firstn by exact Hneed. reflexivity.
+  - destruct H2 as [H2 _]. rewrite H2. f_equal. lia.
+Qed.
+
+Lemma vec_grow_ok : grow_ok vec_grow.
+Proof. intros cap len add. unfold vec_grow. lia. Qed.
